@@ -199,6 +199,8 @@ func (e *Engine) zero(t types.Type) Value {
 	switch u := t.Underlying().(type) {
 	case *types.Basic:
 		switch {
+		case u.Kind() == types.Invalid:
+			return Poison{"invalid type (unused range variable)"}
 		case u.Info()&types.IsBoolean != 0:
 			return tb.False
 		case u.Info()&types.IsInteger != 0:
